@@ -323,3 +323,55 @@ def dot_method_units(repo: Repo):
         if may_be_unyt_out or eff:
             ok = len(eff) == 1 and isinstance(eff[0], Un) and not eff[0].mono.is_opaque and eff[0].mono.same(want)
             yield (f"dot:out-units[{tag}]", ok, fn.where(), "a.dot(b, out=o) must label o with the product of the operands' units", str(want), repr(eff))
+
+
+def unit_rule_results(a: "UfuncAnchors", name: str):
+    """Where does the variable `name` ("mul" or "unit") of __array_ufunc__ get its value?  Yields
+    (assign node, kind, detail) with kind in {"rule", "power-mapping", "literal", "reset", "other"}.  A unit-rule call is
+    a call whose callee is the registry lookup self._ufunc_registry[ufunc] - directly or through a local that is only
+    ever bound to that lookup - with the operand unit(s) as arguments; _apply_power_mapping is bound by parameter name."""
+    from rules.common import bind_call
+
+    fn = a.fn
+    mod = a.mod
+    lookups = {}
+    for n in ast.walk(fn.node):
+        if isinstance(n, ast.Assign) and len(n.targets) == 1 and isinstance(n.targets[0], ast.Name):
+            lookups.setdefault(n.targets[0].id, []).append(norm(n.value))
+    reg_aliases = {k for k, v in lookups.items() if v and all(x == "self._ufunc_registry[ufunc]" for x in v)}
+    pm = mod.func("_apply_power_mapping")
+
+    def classify(call):
+        if not isinstance(call, ast.Call):
+            return None
+        f = call.func
+        if norm(f) == "self._ufunc_registry[ufunc]" or (isinstance(f, ast.Name) and f.id in reg_aliases):
+            args = [norm(x) for x in call.args]
+            return ("rule", args)
+        if isinstance(f, ast.Name) and f.id == "_apply_power_mapping":
+            b = bind_call(call, pm, skip_self=False)
+            return ("power-mapping", {k: norm(v) for k, v in b.items() if not isinstance(v, list)})
+        return None
+
+    for n in ast.walk(fn.node):
+        if not isinstance(n, ast.Assign):
+            continue
+        t = n.targets[0]
+        idx = None
+        if isinstance(t, ast.Tuple):
+            for i, el in enumerate(t.elts):
+                if isinstance(el, ast.Name) and el.id == name:
+                    idx = i
+        elif isinstance(t, ast.Name) and t.id == name:
+            idx = -1
+        if idx is None:
+            continue
+        c = classify(n.value)
+        if c is not None and idx in (0, 1):
+            yield n, c[0], (idx, c[1])
+        elif idx == -1 and isinstance(n.value, ast.Constant):
+            yield n, "literal", n.value.value
+        elif idx == -1:
+            yield n, "reset", norm(n.value)
+        else:
+            yield n, "other", norm(n.value)
